@@ -370,6 +370,12 @@ class Session:
             loop.call_soon(self._deliver, peer_bytes(tok, self.cfg.side == "S", self.big), tok)
         elif k == "d":
             self.tr.peer_close(None)
+        elif k == "l":
+            # the connection is closed locally by another actor (ClientSession.close() / connector.close() end in
+            # ResponseHandler.close()); client only
+            if self.cfg.side != "C":
+                return False
+            self.proto.close()
         elif k == "w":
             # write-side back-pressure (oracle-only histories; the model has no flow control)
             if self.tr.lost_called or (tok[1] == "p") == bool(self.proto._paused):
@@ -570,7 +576,7 @@ class Session:
                 bad.append(("close_code", "reported close code %s but the peer's close frames carried %s (abnormal end must report 1006)"
                             % (code, self.peer_close_codes), {"observed_code": code}))
             if (code == 1006 and len(set(self.peer_close_codes)) == 1 and closes and not self.advanced
-                    and not any(t[0] in "dx" or t[1:2] == "b" for t in self.applied if t != "/")
+                    and not any(t[0] in "dxl" or t[1:2] == "b" for t in self.applied if t != "/")
                     and self._clean_order()):
                 bad.append(("close_code", "clean closing handshake (peer code %s, our close frame sent, no fault) reported as 1006"
                             % self.peer_close_codes[0], {"observed_code": code}))
@@ -721,7 +727,7 @@ def random_history(rng, cfg):
             pre = rng.choice("ppq")
             toks.append(pre + kind + (str(rng.choice(codes)) if kind == "c" else ("1002" if kind == "b" else "")))
         elif r < 0.76:
-            toks.append("d")
+            toks.append("l" if (cfg.side == "C" and rng.random() < 0.4) else "d")
         elif r < 0.86:
             toks.append("x%d" % rng.choice([0, 1, 1, 2, 3]))
         elif r < 0.93:
@@ -841,7 +847,7 @@ def run(ctx):
         n = check_batch(ctx, exe, world, cc, "corpus") if cc else 0
         _close(ctx, exe, "corpus", max(n, 1) if cc else 1)
         # 2. enumerated short orderings on two tasks
-        alpha = ["c0r", "c1k1001", "pc4001", "d", "x1", "x0", "a12", "pt", "qc4001", "r"]
+        alpha = ["c0r", "c1k1001", "pc4001", "d", "x1", "x0", "a12", "pt", "qc4001", "r", "l"]
         seps = [(1, 1, 1, 1), (0, 0, 0, 1), (1, 0, 0, 1), (0, 1, 0, 1)]
         allseq = list(enumerated_histories(alpha, 3 if ctx.quick else 4, [s[:3] + (1,) for s in seps] if ctx.quick else seps[:2]))
         # 3-sequences are prefixed with a blocked receive so that the races are reached
